@@ -5,6 +5,7 @@ import re
 import zlib
 
 from harness.engine import tlc as T
+from harness.engine.core import run_extension
 
 SPEC = os.path.join(T.SPECS, "Resolver")
 _APPS = {}
@@ -236,10 +237,10 @@ def run(ctx):
     # ---- extension: the configuration layer (specs/Config; A-clauses only)
     from harness.props import ext_config
 
-    ext_config.run_ext(ctx)
+    run_extension(ctx, "config", ext_config.run_ext)
     from harness.props import ext_suggest
 
-    ext_suggest.run_ext(ctx)
+    run_extension(ctx, "suggest", ext_suggest.run_ext)
 
 
 COLL = {"c1": ("a", ["x"]), "c2": ("b", ["x", "y"]), "c3": ("a", ["y"]), "c4": ("c", [])}
